@@ -9,6 +9,7 @@ import (
 	"runtime"
 	"sort"
 	"strings"
+	"sync/atomic"
 	"testing"
 	"time"
 
@@ -110,6 +111,27 @@ type observer struct {
 	x        *ev.Ctx
 	sawFail  bool
 	restarts int
+	mid      atomic.Value // first violation seen WHILE a load / refresh was under way (string)
+	midSeen  atomic.Int64
+}
+
+// midLoad runs on the goroutine of the code under test at the hook sites right after a download: the downloaded
+// document exists as a temporary file at that moment, and it too has to lie inside work_dir.
+func (o *observer) midLoad(w *sim.World) func(string) {
+	return func(name string) {
+		if name != "repo.stage.downloaded" && name != "repo.refresh.downloaded" {
+			return
+		}
+		o.midSeen.Add(1)
+		if ents, _ := os.ReadDir(sysTmp); len(ents) > 0 {
+			o.mid.CompareAndSwap(nil, fmt.Sprintf("while a list was being taken in (%s) the system temp directory held %q: artefacts of a running load lie outside work_dir", name, ents[0].Name()))
+			return
+		}
+		sb := w.SandboxDir()
+		if d := diff(o.outside, snapshot(sb, w.WorkDir(), filepath.Join(sb, "files"))); len(d) > 0 {
+			o.mid.CompareAndSwap(nil, fmt.Sprintf("while a list was being taken in (%s) the file system changed OUTSIDE work_dir: %v", name, d))
+		}
+	}
 }
 
 func snapshot(root string, skip ...string) map[string]string {
@@ -168,12 +190,16 @@ func (o *observer) BeforeStart(w *sim.World) {
 	os.MkdirAll(filepath.Join(sb, "work-sibling"), 0o755)
 	os.WriteFile(filepath.Join(sb, "work-sibling", "crl_decoy_tmp"), []byte("decoy"), 0o644)
 	o.outside = snapshot(sb, wd, filepath.Join(sb, "files"))
+	sim.SetExtraHook(o.midLoad(w))
 }
 
 func (o *observer) AfterEvent(i int, e sim.Event, w *sim.World, m *sim.Model) error {
 	wd := w.WorkDir()
 	sb := w.SandboxDir()
 	spec := w.Spec()
+	if v := o.mid.Load(); v != nil {
+		return fmt.Errorf("%s", v.(string))
+	}
 	// 1. nothing outside work_dir was created, deleted or modified (the harness's own "files" dir excluded)
 	now := snapshot(sb, wd, filepath.Join(sb, "files"))
 	if d := diff(o.outside, now); len(d) > 0 {
@@ -268,8 +294,15 @@ func keysOf(m map[int]bool) []int {
 func runCase(s sim.Spec, x *ev.Ctx) error {
 	o := &observer{stores: map[string]bool{}, named: map[int]bool{}, x: x}
 	res, err := sim.Run(s, x, o)
+	sim.SetExtraHook(nil)
 	if err != nil {
 		return err
+	}
+	if v := o.mid.Load(); v != nil {
+		return fmt.Errorf("%s", v.(string))
+	}
+	if o.midSeen.Load() > 0 {
+		x.Class("observed-while-a-list-was-taken-in")
 	}
 	if ents, _ := os.ReadDir(sysTmp); len(ents) > 0 {
 		return fmt.Errorf("the system temp directory was used (%s) instead of work_dir", ents[0].Name())
@@ -314,7 +347,7 @@ var spec = ev.Spec[sim.Spec]{
 	ID:          "C20",
 	Gen:         genCase,
 	Run:         runCase,
-	Rule:        "histories on a real checker (sim engine: handshakes, origin states incl. failing loads/refreshes, ticks, restarts) whose work_dir sits in a sandbox with decoys next to it, foreign files inside it (names resembling crl_*_tmp and a 64-hex store name) and TMPDIR redirected to an inspected directory; location strings carry hostile query strings (path traversal, %2f / %5c, unicode, 1.5 KiB, NUL, the temp pattern) and pairs that differ only in the query string or only in the port; work_dir is spelled canonically, with a trailing slash or with a /./ component. After EVERY event: nothing outside work_dir was created, deleted or modified; no crl_*_tmp remains; foreign files and directory are intact; no store directory disappeared; on disk the number of store directories lies between the number of distinct locations with a list in force or persisted and the number of distinct locations used so far (also across restarts; two locations never share a store), in memory there are none. Verdicts are still compared with the reference model. Non-trivial: a history with a failed load, a restart or a hostile location string.",
+	Rule:        "histories on a real checker (sim engine: handshakes, origin states incl. failing loads/refreshes, ticks, restarts) whose work_dir sits in a sandbox with decoys next to it, foreign files inside it (names resembling crl_*_tmp and a 64-hex store name) and TMPDIR redirected to an inspected directory; location strings carry hostile query strings (path traversal, %2f / %5c, unicode, 1.5 KiB, NUL, the temp pattern) and pairs that differ only in the query string or only in the port; work_dir is spelled canonically, with a trailing slash or with a /./ component. After EVERY event, and additionally WHILE a list is being taken in (observed from the hook sites right after a download, when the downloaded document exists as a temporary file): nothing outside work_dir was created, deleted or modified and the system temp directory is empty; after every event: no crl_*_tmp remains; foreign files and directory are intact; no store directory disappeared; on disk the number of store directories lies between the number of distinct locations with a list in force or persisted and the number of distinct locations used so far (also across restarts; two locations never share a store), in memory there are none. Verdicts are still compared with the reference model. Non-trivial: a history with a failed load, a restart or a hostile location string.",
 	Assumptions: []string{"locations equal after the loader's own URL normalisation may share a store and are not generated as 'distinct'"},
 }
 
